@@ -65,6 +65,8 @@ K_EXPORT_EMPTY = re.compile(rb'export\s*\{\s*\}')
 
 # K9: SVG path coordinates beyond the float64 range are printed as "Inf" (invalid path data)
 K_SVG_HUGE = re.compile(rb'\bd\s*=\s*["\'][^"\']*(?:[eE]\+?\d{3,}|\d{300,})')
+# K13: SVG path: the "00 -> e2" shortening is applied to the exponent digits of a coordinate (1e100 -> 1e1e2)
+K_SVG_EXP00 = re.compile(rb'\bd\s*=\s*["\'][^"\']*[eE][+-]?\d*00(?!\d)')
 # K10: a processing instruction whose content contains ">" before its "?>" is cut at that ">" by the XML/SVG minifiers
 K_PI_GT = re.compile(rb'<\?(?:(?!\?>)[^>])*(?<!\?)>', re.S)
 
@@ -123,6 +125,8 @@ def excluded(lang, opts, b):
         tags.append('K9')
     if lang in ('xml', 'svg') and K_PI_GT.search(b):
         tags.append('K10')
+    if lang in ('svg', 'html') and K_SVG_EXP00.search(b):
+        tags.append('K13')
     if lang == 'html' and K_SCRIPT_TYPE_CASE.search(b):
         tags.append('K11')
     if lang in ('js', 'html') and ('names' in opts or 'keep' in opts) and same_name_var_and_let(b):
